@@ -805,7 +805,9 @@ func Validate(dir Dir) error {
 	if err != nil {
 		return err
 	}
-	if ac.Sum() != ex.Sum() {
+	// Compare the entries as well as the sums: HashFile.Sum concatenates names and
+	// hashes without separators, so different entry lists can share one sum.
+	if ac.Sum() != ex.Sum() || !slices.Equal(ac, ex) {
 		err := &ChecksumError{Total: len(ac)}
 		// Determine the reason for the mismatch. Iterate over the file sum,
 		// based on it determine if a file was removed, added or edited.
